@@ -33,7 +33,11 @@ def lg_cases(draw, tier="quick"):
          "pvar": draw(st.lists(gen.logpos(-0.7, 0.7), min_size=npar, max_size=npar)), "PG": draw(gen.mat(npar, npar, -0.4, 0.4)),
          "pmean_kind": draw(st.sampled_from(["zero", "vector"])), "pmean": draw(gen.vec(npar, -1, 1)),
          "data": draw(gen.vec(m, -2, 2)), "probe": draw(gen.vec(npar, -1, 1)),
-         "nonlinear": False, "cc": 0.0}
+         "nonlinear": False, "cc": 0.0,
+         # the covariance materialised beforehand by the public compute_cov() (opens the closed-form route for Gaussians given by
+         # prec / sqrtprec / sqrtcov); a user-supplied starting point for MAP
+         "compute_cov": draw(st.sampled_from([False, False, True])), "map_x0": draw(st.sampled_from(["none", "none", "vector"])),
+         "x0": draw(gen.vec(npar, -2, 2))}
     return c
 
 
@@ -103,6 +107,9 @@ def build(c):
     mu = A(c["pmean"]) if c["pmean_kind"] == "vector" else np.zeros(npar)
     x = cuqi.distribution.Gaussian(mu.copy(), **pkw, geometry=dom, name="x")
     y = cuqi.distribution.Gaussian(model(x), **nkw, geometry=m, name="y")
+    if c.get("compute_cov"):
+        x.compute_cov()
+        y.compute_cov()
     BP = cuqi.problem.BayesianProblem(y, x, y=A(c["data"]))
     return BP, model, Se, Sx, mu
 
@@ -119,7 +126,7 @@ def effective_matrix(model):
 
 def tags_of(c):
     return {"dom": c["dom"]["kind"], "backing": "nonlinear" if c["nonlinear"] else c["backing"], "noise": c["noise_form"], "prior": c["prior_form"],
-            "pmean": c["pmean_kind"]}
+            "pmean": c["pmean_kind"], "compute_cov": bool(c.get("compute_cov")), "map_x0": c.get("map_x0", "none")}
 
 
 def nontrivial(c):
@@ -163,11 +170,16 @@ def run_linear(c, rec):
     sd = np.sqrt(np.diag(C))
     probe = A(c["probe"])
     # ---------------- MAP
-    refused, xm = refuses(lambda: BP.MAP(disp=False))
+    mapkw = {"x0": A(c["x0"])} if c.get("map_x0") == "vector" else {}
+    refused, xm = refuses(lambda: BP.MAP(disp=False, **mapkw))
     if refused:
         rec.count("MAP_refused:" + type(xm).__name__)
     else:
         route = getattr(xm, "info", {}).get("solver", "?")
+        if c.get("compute_cov"):
+            rec.count(f"MAP_after_compute_cov:{route}")
+        if mapkw:
+            rec.count(f"MAP_with_x0:{route}")
         rec.count(f"MAP_route:{route}")
         tol = 1e-6 if route == "direct" else 2e-3
         xm_arr = np.asarray(xm, dtype=float)
